@@ -28,3 +28,35 @@ package persistence
 //@   requires d != nil && d.svc != nil && envelope != nil
 //@   ensures [C18:key-stored-as-standard-padded-base64] ncalls(EncodeToString) == 1 && arg(EncodeToString, 1, enc) == base64.StdEncoding && arg(EncodeToString, 1, src) == envelope.EncryptedKey
 //@   ensures [C18:key-record-fields-copied] ncalls(MarshalMap) == 1 && (forall e *DynamoDBEnvelope :: e == *dyn(arg(MarshalMap, 1, in), **DynamoDBEnvelope) ==> e != nil && e.EncryptedKey == ret(EncodeToString, 1, 0) && e.Created == envelope.Created && e.Revoked == envelope.Revoked && e.ParentKeyMeta == envelope.ParentKeyMeta)
+
+// ---- C13: the requests are the documented ones (strongly consistent, newest first, one row, conditional insert) ----
+//@ extern aws.Bool
+//@   names v
+//@   ensures result != nil && fresh(result) && *result == v
+//@ extern aws.Int64
+//@   names v
+//@   ensures result != nil && fresh(result) && *result == v
+//@ iface DynamoDBClientAPI.QueryWithContext
+//@   names ctx, input, opts
+//@ iface DynamoDBClientAPI.GetItemWithContext
+//@   names ctx, input, opts
+
+//@ func (*DynamoDBMetastore).LoadLatest
+//@   facet C13
+//@   opt no-frame
+//@   requires d != nil && d.svc != nil
+//@   ensures [C13:dynamodb-latest-is-a-strongly-consistent-newest-first-limit-1-query] ncalls(QueryWithContext) <= 1 && (ncalls(QueryWithContext) == 1 ==> arg(QueryWithContext, 1, input) != nil && arg(QueryWithContext, 1, input).ConsistentRead != nil && *arg(QueryWithContext, 1, input).ConsistentRead && arg(QueryWithContext, 1, input).ScanIndexForward != nil && !*arg(QueryWithContext, 1, input).ScanIndexForward && arg(QueryWithContext, 1, input).Limit != nil && *arg(QueryWithContext, 1, input).Limit == 1 && *arg(QueryWithContext, 1, input).TableName == d.tableName)
+
+//@ func (*DynamoDBMetastore).Load
+//@   facet C13
+//@   opt no-frame
+//@   requires d != nil && d.svc != nil
+//@   ensures [C13:dynamodb-load-is-a-strongly-consistent-exact-key-read] ncalls(GetItemWithContext) <= 1 && (ncalls(GetItemWithContext) == 1 ==> arg(GetItemWithContext, 1, input) != nil && arg(GetItemWithContext, 1, input).ConsistentRead != nil && *arg(GetItemWithContext, 1, input).ConsistentRead && *arg(GetItemWithContext, 1, input).TableName == d.tableName)
+
+//@ func (*DynamoDBMetastore).Store
+//@   facet C13
+//@   ensures [C13:dynamodb-store-is-a-conditional-insert] ncalls(PutItemWithContext) <= 1 && (ncalls(PutItemWithContext) == 1 ==> arg(PutItemWithContext, 1, input).ConditionExpression != nil && *arg(PutItemWithContext, 1, input).ConditionExpression == "attribute_not_exists(Id)" && *arg(PutItemWithContext, 1, input).TableName == d.tableName)
+//@   ensures [C13:dynamodb-store-reports-stored-only-after-the-insert-succeeded] result ==> retis(PutItemWithContext, 1, 1, nil)
+//@ extern dynamodbattribute.Unmarshal
+//@   names av, out
+//@   modifies pointee(out)
